@@ -724,6 +724,10 @@ class GameCoordinator:
             if self.shutdown_flag.is_set():
                 self.logger.debug("\tExiting reset_game task.")
                 break
+            if not (len(self._reset_requests) > 0 and all(self._reset_requests.values())):
+                # an agent joined after the event was set - the game is reset only when it asks for it too
+                self._reset_event.clear()
+                continue
             # wait until episode is finished by all agents
             self.logger.info("Resetting game to initial state.")
             await self.reset()
